@@ -25,6 +25,12 @@ class SymIter(object):
     return self._at(interp, k)
 
 
+class SeqSet(Sym):
+  """set(<symbolic list>): only `in` and len() are available."""
+  __slots__ = ("seq",)
+  def __init__(self, seq): self.seq = seq
+
+
 class SymComp(object):
   """A lazy generator expression over a SymIter: element and condition as functions of the index
   (evaluated in total/spec mode)."""
@@ -259,6 +265,19 @@ def m_len(ip, x):
   if isinstance(x, SSeq): return SInt(x.length)
   if isinstance(x, SStr): return SInt(z3.Length(x.t))
   if isinstance(x, SymIter): return SInt(x.length)
+  if isinstance(x, SeqSet):
+    seq = x.seq
+    c = ip.ctx.const("card", z3.IntSort())
+    i, j = z3.Int("ci?%d" % ip._qid()), z3.Int("cj?%d" % ip._qid())
+    old = ip.spec; ip.spec = True
+    try:
+      same = ip._bt(ip.eq(seq.at(i), seq.at(j)))
+    finally:
+      ip.spec = old
+    distinct = z3.ForAll([i, j], z3.Implies(z3.And(i >= 0, i < j, j < seq.length), z3.Not(same)))
+    ip.ctx.assume(z3.And(c >= 0, c <= seq.length, z3.Implies(seq.length > 0, c > 0),
+                         (c == seq.length) == distinct))
+    return SInt(c)
   if isinstance(x, ObjVal):
     m = ip.lookup_method(x, "__len__")
     if m is not None: return ip.call(m, [], {})
@@ -451,6 +470,11 @@ def m_sorted(ip, x, key=None, reverse=False):
 def m_set(ip, x=()):
   if isinstance(x, SOpq) and ip.contract and ("set", x.kind) in ip.contract.hooks:
     return ip.contract.hooks[("set", x.kind)](ip, x)
+  if isinstance(x, SSeq):
+    # set(list): only membership and len() are modelled (assumed contract of set/len):
+    #   y in set(l) == y in l ;   len(set(l)) == len(l)  iff  l has no two equal elements
+    ip.ctx.assumed_contracts.add("set(list): members = list elements; len(set(l)) == len(l) iff no repeats")
+    return SeqSet(x)
   it = as_iterable(ip, x)
   if isinstance(it, list):
     if any(is_symbolic(v) for v in it): ip.unsupported("set() of symbolic values")
@@ -716,7 +740,10 @@ def dict_update(ip, m, other, node=None):
   def hit(idx):
     pair = other.elt(ip, SInt(idx))
     c = ip._bt(other.cond(ip, SInt(idx)))
-    (kl,) = m.key.leaves(pair[0])
+    k0 = pair[0].val if isinstance(pair[0], SOpt) and not isinstance(m.key, V.Opt) else pair[0]
+    if k0 is not pair[0]:
+      c = z3.And(c, z3.Not(pair[0].isnone))      # a None key cannot be one of these keys
+    (kl,) = m.key.leaves(k0)
     return z3.And(c, kl == key)
   lk = last(key)
   ctx.assume(z3.ForAll([key], z3.Or(
